@@ -32,13 +32,16 @@ def run(tier, replay_path=None):
         tlc_must_pass(mc, "MCInsert")
         states, gen, mvs = mc.distinct, mc.generated, len(mc.payloads("MV"))
         hists = mc.json_payloads("CASE")
-        log("[C10] MC: %d states (all histories of <= %d calls over 23 actions), %d model-level counterexamples, %.0fs" % (mc.distinct, n, mvs, mc.wall))
+        log("[C10] MC: %d states (all histories of <= %d calls over 25 actions), %d model-level counterexamples, %.0fs" % (mc.distinct, n, mvs, mc.wall))
         if tier == "quick":
             hists = [h for h in hists if len(h) <= 2] + sample([h for h in hists if len(h) > 2], 3000, rng)
         else:
             hists = [h for h in hists if len(h) <= 3] + sample([h for h in hists if len(h) > 3], 40000, rng)
         for _ in range(500 if tier == "quick" else 8000):
             hists.append(rand_hist(rng, rng.randint(4, 8)))
+    if not replay_path:
+        # the row is handed over as a Vec, as an iterator whose size_hint overestimates, or as one without a size_hint
+        hists = [[dict(c, it=rng.choice(["filter", "lazy"])) if c["op"] in ("values", "values_panic") and rng.random() < 0.3 else c for c in h] for h in hists]
     cases = [{"id": i, "calls": h} for i, h in enumerate(hists)]
     recs, dt = replay("insert", cases, wd)
     verdicts, vt = validate("InsertTrace", recs, os.path.join(wd, "tv"), jvms=12)
